@@ -246,3 +246,66 @@ def c17_chains(ctx, n):
         ctx.tick()
     ctx.ensure(f"chain {names}: shared operand a exactly as it was", _same_deep(a, sa))
     ctx.ensure(f"chain {names}: shared operand b exactly as it was", _same_deep(b, sb))
+
+
+def _optical_forms():
+    F = {}
+    for cs in ("HSV", "BGR", "RGB", "LAB"):
+        F[f"to_trichromatic-{cs}"] = lambda a, cs=cs: a.to_trichromatic(cs, return_image=True)
+    for key in ("gray", "red", "hue", "value"):
+        F[f"to_monochromatic-{key}"] = lambda a, key=key: a.to_monochromatic(key)
+    F["astype-uint8"] = lambda a: a.img_as(np.uint8)
+    F["copy"] = lambda a: a.copy()
+    F["subregion"] = lambda a: a.subregion((slice(1, 5), slice(2, 9)))
+    F["resize"] = lambda a: darsia.resize(a, shape=(4, 6), interpolation="inter_area")
+    return F
+
+
+@ob("C17.frame_optical", kind="B", cases=[dict(form=k, dtype=d) for k in _optical_forms() for d in ("float64", "float32", "uint8")], funcs=FUNCS + ["darsia.image.image:OpticalImage.to_trichromatic", "darsia.image.image:OpticalImage.to_monochromatic"],
+    samples=(1, 2), cite="type and colour-space conversions that return an image ... leave every argument (pixel data, metadata ...) exactly as it was",
+    note="bounded: OpenCV colour conversions on seeded random optical images of every supported dtype; the snapshot includes the dtype")
+def c17_frame_optical(ctx, form, dtype):
+    rng = np.random.default_rng(ctx.rng.randrange(1 << 30))
+    raw = rng.random((8, 12, 3))
+    raw = raw.astype(dtype) if dtype != "uint8" else (255 * raw).astype(np.uint8)
+    import contextlib, io
+    with contextlib.redirect_stdout(io.StringIO()):
+        a = darsia.OpticalImage(raw.copy(), dimensions=[1.0, 1.5], color_space="RGB", name="o")
+        snap = _deep(a)
+        try:
+            res = _optical_forms()[form](a)
+        except (NotImplementedError, ValueError, KeyError):
+            res = None            # conversion not offered for this key / dtype: nothing to compare
+    ctx.ensure(f"{form}/{dtype}: operand exactly as it was (data, dtype, metadata incl. colour space)", _same_deep(a, snap) and a.img.dtype == raw.dtype and a.color_space == "RGB")
+    if isinstance(res, darsia.Image):
+        ctx.ensure(f"{form}/{dtype}: result is a new object", res is not a)
+
+
+LAYOUTS = ([0, 0], [0, 0, 0], [2, 0], [0, 2], [2, 3], [3, 0, 0], [2, 2, 0])
+
+
+@ob("C17.frame_stack", kind="B", cases=[dict(layout="-".join(map(str, l)), times=t, payload=p) for l in LAYOUTS for t in ("dates", "none") for p in ("scalar", "optical")], funcs=FUNCS, samples=(1, 1),
+    cite="stacking ... leave every argument (pixel data, metadata and caller-owned containers ...) exactly as it was",
+    note="bounded: every layout of single-time images (0) and series (k = number of time steps) in the list, with and without dates; deep snapshots incl. date / time lists")
+def c17_frame_stack(ctx, layout, times, payload):
+    from datetime import datetime, timedelta
+    rng = np.random.default_rng(ctx.rng.randrange(1 << 30))
+    t0 = datetime(2023, 1, 1)
+    imgs, k = [], 0
+    for nt in [int(x) for x in layout.split("-")]:
+        shape = (4, 5) + ((nt,) if nt else ()) + ((3,) if payload == "optical" else ())
+        kw = dict(dimensions=[1.0, 1.25], series=bool(nt))
+        if times == "dates":
+            kw["date"] = [t0 + timedelta(hours=k + j) for j in range(nt)] if nt else t0 + timedelta(hours=k)
+            kw["reference_date"] = t0
+        k += max(nt, 1)
+        cls = darsia.OpticalImage if payload == "optical" else darsia.ScalarImage
+        imgs.append(cls(rng.random(shape), **({"color_space": "RGB"} if payload == "optical" else {}), **kw))
+    snaps = [(_deep(im), copy.deepcopy(im.date), copy.deepcopy(im.time), im.time_num, im.series) for im in imgs]
+    lst = list(imgs)
+    out = darsia.stack(lst)
+    ctx.ensure("the list itself is untouched", len(lst) == len(imgs) and all(x is y for x, y in zip(lst, imgs)))
+    for n, (im, (snap, date, time, tn, ser)) in enumerate(zip(imgs, snaps)):
+        ctx.ensure(f"image {n}: pixel data and metadata exactly as they were", _same_deep(im, snap))
+        ctx.ensure(f"image {n}: date / time lists and series bookkeeping exactly as they were", im.date == date and im.time == time and im.time_num == tn and im.series == ser)
+    ctx.ensure("result is a new series with all time steps", out is not imgs[0] and out.series and out.time_num == sum(max(int(x), 1) for x in layout.split("-")))
